@@ -6,11 +6,11 @@ package syncx
 
 // ---- Limit: a borrow is a successful send on the buffered pool channel, a return a successful receive ----
 //@ func (Limit).TryBorrow
-//@   prop C18
+//@   prop C18, C02
 //@   ensures [borrowed-iff-slot] result == (calls(on("send", l.pool)) == 1) && calls("send") <= 1
 //@   ensures [one-atomic-non-blocking-step] calls(on("poll", l.pool)) == 1 && calls("poll") == 1 && calls("recv") == 0
 //@ func (Limit).Return
-//@   prop C18
+//@   prop C18, C02
 //@   ensures [return-needs-borrow] (result == nil) == (calls(on("recv", l.pool)) == 1) && (result != nil ==> result == ErrLimitReturn)
 // the token is taken and the "nothing to return" case told apart in ONE non-blocking select on the pool (a length
 // check followed by a receive could block, and then swallow the next borrower's token)
